@@ -22,35 +22,37 @@ def _body(text):
     i = text.find("*)")
     return text[i + 2:] if i >= 0 else text
 
-def _farm(d):
-    """a copy of coq/ made of symbolic links, without the files that depend on the translation"""
-    skip = {"Generated/LeafCode", "Proofs/LeafCodeProofs"} | {"Properties/Properties_%s" % p for p in LEAF_PIDS}
+def recheck_generated(gen_rel, text, dependents, what):
+    """Re-check `dependents` (paths relative to coq/, in build order) against a regenerated coq/<gen_rel> without touching coq/:
+    a scratch copy of the development made of symbolic links to the sources and compiled files, in which the generated file
+    and its dependents are real files compiled afresh.  Cached by content.  -> dict(ok, detail, dir, output)"""
+    key = hashlib.sha256((gen_rel + text + "".join(open(os.path.join(common.COQ, f)).read() for f in dependents)).encode()).hexdigest()[:16]
+    d = os.path.join(common.CACHE, "regen", key); res = os.path.join(d, "result.json")
+    if os.path.exists(res): return json.load(open(res))
+    if os.path.isdir(d): shutil.rmtree(d, ignore_errors=True)
+    os.makedirs(d)
+    fresh = {gen_rel[:-2]} | {f[:-2] for f in dependents}
     for sub in ("Model", "Proofs", "Generated", "Properties"):
         os.makedirs(os.path.join(d, sub), exist_ok=True)
         for f in os.listdir(os.path.join(common.COQ, sub)):
             stem = sub + "/" + f.split(".")[0]
             src = os.path.join(common.COQ, sub, f); dst = os.path.join(d, sub, f)
-            if os.path.lexists(dst): continue
-            if stem in skip:
-                if f.endswith(".v") and stem != "Generated/LeafCode": shutil.copy(src, dst)
-                continue
-            os.symlink(src, dst)
-
-def _recheck(text):
-    key = hashlib.sha256((text + "".join(open(os.path.join(common.COQ, f)).read() for f in DEPENDENTS + ["Model/Cxx.v"])).encode()).hexdigest()[:16]
-    d = os.path.join(common.CACHE, "leaf", key); res = os.path.join(d, "result.json")
-    if os.path.exists(res): return json.load(open(res))
-    if os.path.isdir(d): shutil.rmtree(d)
-    os.makedirs(d); _farm(d)
-    open(os.path.join(d, "Generated", "LeafCode.v"), "w").write(text)
-    out = dict(ok=True, detail="", dir=d)
-    for f in ["Generated/LeafCode.v"] + DEPENDENTS:
+            if stem in fresh:
+                if f.endswith(".v") and stem != gen_rel[:-2]: shutil.copy(src, dst)
+            else: os.symlink(src, dst)
+    open(os.path.join(d, gen_rel), "w").write(text)
+    out = dict(ok=True, detail="", dir=d, output="")
+    for f in [gen_rel] + list(dependents):
         r = subprocess.run(["timeout", "900", "coqc", "-Q", ".", "FFSM2", "-w", "-notation-overridden,-deprecated-hint-without-locality,-deprecated-instance-without-locality", f],
                            cwd=d, capture_output=True, text=True)
+        out["output"] = r.stdout[-20000:]
         if r.returncode != 0:
-            out = dict(ok=False, detail="%s does not check against the translation of this tree:\n%s" % (f, (r.stdout + r.stderr)[-1800:]), dir=d); break
+            out = dict(ok=False, detail="%s does not check against %s:\n%s" % (f, what, (r.stdout + r.stderr)[-1800:]), dir=d, output=""); break
     json.dump(out, open(res, "w"))
     return out
+
+def _recheck(text):
+    return recheck_generated("Generated/LeafCode.v", text, DEPENDENTS, "the translation of this tree")
 
 def check(run):
     """adds the source-tie obligations to run.proof (which must have been computed already)"""
